@@ -6,7 +6,7 @@
    op script, EVERY sequence of writes.  c20_cfg_fixed is the code with fixes/C20-1 and C20-2 applied,
    c20_cfg_current the code as it stands; theorems quantified over cfg hold for both. *)
 From Coq Require Import List ZArith QArith Bool.
-From DuneV Require Import Params_gen C20_Model C20_Spec C20_Proofs.
+From DuneV Require Import Params_gen C20_Model C20_Spec C20_Proofs C20_Proofs_Export.
 Import ListNotations.
 
 (* ---- construction: "holds exactly the given numbers (the first n of them, zero-filled when fewer are given)" *)
@@ -585,4 +585,91 @@ Example C20_audit_nonvacuous :
   c20_dump (fst (c20_run c20_cfg_fixed c20_init ops)) =
     [(C20_Vec, [12#1; 7#1; 7#1; 6#1]%Q); (C20_Arr, [7#1; 7#1; 6#1]%Q); (C20_Arr, [12#1; 7#1; 7#1; 6#1]%Q); (C20_Arr, [6#1; 7#1; 7#1; 12#1]%Q)] /\
   nth 8 (snd (c20_run c20_cfg_fixed c20_init ops)) C20_ObsNone = C20_ObsExc C20_ValueError.
+Proof. vm_compute; split; reflexivity. Qed.
+
+(* ==== seeding round 6: kind / flags of the exporting buffer (read-only, dimension, format) for every entry point that takes a
+        buffer: NumPyVector( pybind11::buffer ) and the FieldVector constructor / operand conversion from a buffer.
+        "Memory is shared exactly where the buffer protocol promises it": a read-only export promises no writable memory. *)
+
+(* the constructor of NumPyVector decides, for EVERY exporter: not one-dimensional -> InvalidStateException (RuntimeError);
+   read-only -> the exporter's refusal of the writable request (ValueError from NumPy); otherwise accepted *)
+Theorem C20_npv_gate_table : forall ex,
+  c20_npv_gate ex =
+    if negb (Nat.eqb (c20_ex_ndim ex) 1) then C20_Exc C20_RuntimeError
+    else if c20_ex_readonly ex then C20_Exc C20_ValueError else C20_Ok tt.
+Proof. exact P_npv_gate. Qed.
+Print Assumptions C20_npv_gate_table.
+
+(* EVERY access (read or write, any register, any state, both configurations) through a NumPyVector around a read-only export
+   is refused and leaves heap and registers exactly as they were *)
+Theorem C20_readonly_export_refused : forall cfg st ex r a, c20_ex_readonly ex = true ->
+  fst (c20_xstep cfg st (C20_NOnExport ex r a)) = st /\
+  (c20_ex_ndim ex = 1%nat -> c20_xstep cfg st (C20_NOnExport ex r a) = (st, C20_ObsExc C20_ValueError)) /\
+  (c20_ex_ndim ex <> 1%nat -> c20_xstep cfg st (C20_NOnExport ex r a) = (st, C20_ObsExc C20_RuntimeError)).
+Proof. exact P_readonly_refused. Qed.
+Print Assumptions C20_readonly_export_refused.
+
+(* a writable one-dimensional export is accepted: the access is the `npv` op on the register's cells, i.e. (C20_numpy_view) on
+   the very cells NumPy indexing addresses: writes are visible on the other side *)
+Theorem C20_writable_export_shared : forall cfg st ex r a, c20_ex_readonly ex = false -> c20_ex_ndim ex = 1%nat ->
+  c20_xstep cfg st (C20_NOnExport ex r a) = c20_step_reg cfg st (c20_nacc_op r a).
+Proof. exact P_writable_shared. Qed.
+Print Assumptions C20_writable_export_shared.
+
+Theorem C20_export_not_1d : forall cfg st ex r a, c20_ex_ndim ex <> 1%nat ->
+  c20_xstep cfg st (C20_NOnExport ex r a) = (st, C20_ObsExc C20_RuntimeError).
+Proof. exact P_export_ndim. Qed.
+Print Assumptions C20_export_not_1d.
+
+(* FieldVector_n( exporter ) copies: the read-only flag is irrelevant, a double / one-dimensional exporter gives exactly the
+   vector of the ordinary buffer constructor (C20_construct_buffer: first n, zero filled), any other format / dimension is
+   refused with ValueError and the state untouched *)
+Theorem C20_construct_from_export : forall cfg st ex n r,
+  c20_xstep cfg st (C20_NewFromExport ex n r) =
+    c20_xstep cfg st (C20_NewFromExport {| c20_ex_readonly := false; c20_ex_format_ok := c20_ex_format_ok ex; c20_ex_ndim := c20_ex_ndim ex |} n r) /\
+  (c20_ex_format_ok ex = true -> c20_ex_ndim ex = 1%nat ->
+     c20_xstep cfg st (C20_NewFromExport ex n r) = c20_step_reg cfg st (C20_NewFromBuf n r)) /\
+  (c20_ex_format_ok ex = false \/ c20_ex_ndim ex <> 1%nat ->
+     nth_error (c20_regs st) r <> None -> c20_xstep cfg st (C20_NewFromExport ex n r) = (st, C20_ObsExc C20_ValueError)).
+Proof. exact P_new_from_export. Qed.
+Print Assumptions C20_construct_from_export.
+
+(* ALL histories: well-formedness is an invariant of every extended script; scripts without exporter ops are the ordinary ones *)
+Theorem C20_xrun_wf : forall cfg xs st, c20_wf st -> c20_wf (fst (c20_xrun cfg st xs)).
+Proof. exact P_xrun_wf. Qed.
+Print Assumptions C20_xrun_wf.
+
+Theorem C20_xrun_plain : forall cfg ops st, c20_xrun cfg st (map C20_X ops) = c20_run cfg st ops.
+Proof. exact P_xrun_plain. Qed.
+Print Assumptions C20_xrun_plain.
+
+(* ALL histories: erasing every access through a read-only export from ANY script changes nothing in its final state -- no
+   entry of any object is ever changed through a read-only export -- and each such access is observed as an exception *)
+Theorem C20_readonly_export_frame : forall cfg xs st,
+  fst (c20_xrun cfg st xs) = fst (c20_xrun cfg st (filter (fun x => negb (c20_xreadonly x)) xs)).
+Proof. exact P_xrun_readonly_erase. Qed.
+Print Assumptions C20_readonly_export_frame.
+
+Theorem C20_readonly_export_observed : forall cfg xs st,
+  Forall (fun p => c20_xreadonly (fst p) = true -> exists e, snd p = C20_ObsExc e) (combine xs (snd (c20_xrun cfg st xs))).
+Proof. exact P_xrun_readonly_obs. Qed.
+Print Assumptions C20_readonly_export_observed.
+
+(* non-vacuity: a strided view a[::2] of a six-entry array; the write through a read-only export of it is refused and changes
+   nothing, the same write through a writable export lands in a[0]; a FieldVector_2 built from a read-only export of the view
+   holds its first two entries; a float32 / two-dimensional exporter is refused *)
+Example C20_export_nonvacuous :
+  let ro := {| c20_ex_readonly := true; c20_ex_format_ok := true; c20_ex_ndim := 1 |} in
+  let rw := {| c20_ex_readonly := false; c20_ex_format_ok := true; c20_ex_ndim := 1 |} in
+  let xs := [C20_X (C20_NewArr [1#1; 2#1; 3#1; 4#1; 5#1; 6#1]%Q); C20_X (C20_Slice 0 None None (Some 2%Z));
+             C20_NOnExport ro 1 (C20_ASet 0 (50#1)%Q); C20_NOnExport ro 1 (C20_AIMulS (2#1)%Q); C20_NOnExport ro 1 (C20_AGet 1);
+             C20_NOnExport rw 1 (C20_ASet 0 (50#1)%Q); C20_NOnExport rw 1 (C20_AGet 1); C20_NewFromExport ro 2 1;
+             C20_NewFromExport {| c20_ex_readonly := true; c20_ex_format_ok := false; c20_ex_ndim := 1 |} 2 1;
+             C20_NOnExport {| c20_ex_readonly := true; c20_ex_format_ok := true; c20_ex_ndim := 2 |} 1 C20_ALen] in
+  snd (c20_xrun c20_cfg_fixed c20_init xs) =
+    [C20_ObsObj C20_Arr [1#1; 2#1; 3#1; 4#1; 5#1; 6#1]%Q; C20_ObsObj C20_Arr [1#1; 3#1; 5#1]%Q;
+     C20_ObsExc C20_ValueError; C20_ObsExc C20_ValueError; C20_ObsExc C20_ValueError;
+     C20_ObsNone; C20_ObsScalar (3#1)%Q; C20_ObsObj C20_Vec [50#1; 3#1]%Q; C20_ObsExc C20_ValueError; C20_ObsExc C20_RuntimeError] /\
+  c20_dump (fst (c20_xrun c20_cfg_fixed c20_init xs)) =
+    [(C20_Arr, [50#1; 2#1; 3#1; 4#1; 5#1; 6#1]%Q); (C20_Arr, [50#1; 3#1; 5#1]%Q); (C20_Vec, [50#1; 3#1]%Q)].
 Proof. vm_compute; split; reflexivity. Qed.
